@@ -9,9 +9,11 @@ HEADS = {"field_first_parse": {"for key, field in self.fields.items():": "floop"
          # FunctionParser.parse_params (utype/parser/func.py): the positional pass and the positional-only defaults
          "parse_params": {"for i, arg in enumerate(args):": "args", "for index, field in self.positional_only_fields:": "posonly"},
          # Rule._parse_seq_args / _parse_map_args (utype/parser/rule.py): the element loops
-         "_parse_seq_args": {"for i, item in enumerate(value):": "seq"}, "_parse_map_args": {"for _key, _val in value.items():": "map"}}
+         "_parse_seq_args": {"for i, item in enumerate(value):": "seq"}, "_parse_map_args": {"for _key, _val in value.items():": "map"},
+         # TypeTransformer.to_datetime (utype/utils/transform.py): the timestamp normalisation loop
+         "to_datetime": {"while abs(data) > self.MS_WATERSHED:": "loop", "while abs(num) > self.MS_WATERSHED:": "loop-text"}}
 FILES = {"field_first_parse": "parser/base.py", "data_first_parse": "parser/base.py", "parse_params": "parser/func.py",
-         "_parse_seq_args": "parser/rule.py", "_parse_map_args": "parser/rule.py"}
+         "_parse_seq_args": "parser/rule.py", "_parse_map_args": "parser/rule.py", "to_datetime": "utils/transform.py"}
 _lines = {}
 
 
@@ -34,6 +36,11 @@ def observe_steps(call, val, kind_of, names=("field_first_parse", "data_first_pa
             if lab:
                 loc = frame.f_locals
                 ctx = loc.get("context")
+                if frame.f_code.co_name == "to_datetime":
+                    import math
+                    d, w = abs(loc["num"] if lab == "loop-text" else loc["data"]), loc["self"].MS_WATERSHED
+                    steps.append({"loop": lab, "k": 0 if d <= w else int(math.ceil(round(math.log(d / w, 1000), 9)))})      # thousands above the watershed
+                    return local
                 if frame.f_code.co_name in ("_parse_seq_args", "_parse_map_args"):
                     res = loc.get("result", [])
                     items = list(res.items()) if isinstance(res, dict) else [(None, v) for v in res]
